@@ -81,7 +81,7 @@ def run(ctx):
     for i in range(n):
         schema = rng.random() < 0.4
         g = gen.gen_schema_graph(rng) if schema else gen.gen_graph(rng)
-        cfg = gen.gen_cfg(rng, g, presentation=False, allow_cap=False)
+        cfg = gen.gen_cfg(rng, g, presentation=False, allow_cap=False, allow_or=True)
         cfg['report'] = 'mixed'
         cfg['disable_comments'] = False
         cfg['disable_exact'] = False      # a generalised '+' line carries the figure of its exact cardinality (documented)
@@ -102,7 +102,7 @@ def run(ctx):
         # all permutations of small documents
         for i in range(60):
             g = gen.gen_graph(rng, nclasses=2, ninst=2, nprops=2, maxcard=2)[:6]
-            cfg = gen.gen_cfg(rng, g, presentation=False, allow_cap=False)
+            cfg = gen.gen_cfg(rng, g, presentation=False, allow_cap=False, allow_or=True)
             cfg['report'] = 'mixed'
             cfg['disable_comments'] = False
             cfg['disable_exact'] = False
